@@ -1,0 +1,299 @@
+//go:build verif
+
+package sugardb
+
+// This file is only compiled with the "verif" build tag. It re-exports, for the
+// external verification harness, observations that are not reachable through the
+// public API. Nothing here changes behaviour: every function is a read-only
+// observation, an injection of the clock, or an installation of the hook handler.
+
+import (
+	"context"
+	"fmt"
+	"sort"
+	"time"
+	"unsafe"
+
+	"github.com/echovault/sugardb/internal"
+	"github.com/echovault/sugardb/internal/clock"
+	"github.com/echovault/sugardb/internal/modules/set"
+	"github.com/echovault/sugardb/internal/modules/sorted_set"
+	"github.com/echovault/sugardb/internal/verifhook"
+)
+
+// VerifSetHookHandler installs the process-wide hook handler (nil removes it).
+func VerifSetHookHandler(h func(name string, args ...interface{})) {
+	if h == nil {
+		verifhook.SetHandler(nil)
+		return
+	}
+	verifhook.SetHandler(verifhook.Handler(h))
+}
+
+// VerifClock is the clock interface the harness implements.
+type VerifClock interface {
+	Now() time.Time
+	After(d time.Duration) <-chan time.Time
+}
+
+// WithVerifClock injects a clock. Options are applied before the engines are built,
+// so the snapshot and AOF engines receive the same clock.
+func WithVerifClock(c VerifClock) func(sugarDB *SugarDB) {
+	return func(sugarDB *SugarDB) {
+		sugarDB.clock = clock.Clock(c)
+	}
+}
+
+// VerifZMember is one sorted-set member in a dump.
+type VerifZMember struct {
+	Member string
+	Score  float64
+}
+
+// VerifValue is the canonical, side-effect-free rendering of one stored key.
+type VerifValue struct {
+	Type     string // string | int | float | list | hash | set | zset | nil | other:<go type>
+	Str      string
+	Int      int64
+	Float    float64
+	List     []string
+	Hash     map[string]VerifValue // only scalar types inside
+	Set      []string              // sorted
+	SetLen   int                   // the set's own length counter
+	ZSet     []VerifZMember        // sorted by member
+	ExpireAt int64                 // unix nanoseconds; 0 = no deadline
+}
+
+// VerifDumpResult is a whole-server dump.
+type VerifDumpResult struct {
+	DBs      map[int]map[string]VerifValue
+	Volatile map[int][]string // volatile-key index as stored (order preserved)
+	MemUsed  int64
+	LRU      map[int][]string // keys in the LRU heaps (heap order; "<nil>" for nil entries)
+	LFU      map[int][]string
+	LFUCount map[int]map[string]int
+	LRUTime  map[int]map[string]int64
+}
+
+func verifScalar(v interface{}) (VerifValue, bool) {
+	switch t := v.(type) {
+	case nil:
+		return VerifValue{Type: "nil"}, true
+	case string:
+		return VerifValue{Type: "string", Str: t}, true
+	case int:
+		return VerifValue{Type: "int", Int: int64(t)}, true
+	case int64:
+		return VerifValue{Type: "int", Int: t}, true
+	case float64:
+		return VerifValue{Type: "float", Float: t}, true
+	}
+	return VerifValue{}, false
+}
+
+func verifValue(v interface{}) VerifValue {
+	if s, ok := verifScalar(v); ok {
+		return s
+	}
+	switch t := v.(type) {
+	case []string:
+		return VerifValue{Type: "list", List: append([]string{}, t...)}
+	case map[string]interface{}:
+		h := make(map[string]VerifValue, len(t))
+		for f, fv := range t {
+			if s, ok := verifScalar(fv); ok {
+				h[f] = s
+			} else {
+				h[f] = VerifValue{Type: fmt.Sprintf("other:%T", fv)}
+			}
+		}
+		return VerifValue{Type: "hash", Hash: h}
+	case *set.Set:
+		if t == nil {
+			return VerifValue{Type: "other:nil-set"}
+		}
+		m := t.GetAll()
+		sort.Strings(m)
+		if m == nil {
+			m = []string{}
+		}
+		return VerifValue{Type: "set", Set: m, SetLen: t.Cardinality()}
+	case *sorted_set.SortedSet:
+		if t == nil {
+			return VerifValue{Type: "other:nil-zset"}
+		}
+		all := t.GetAll()
+		z := make([]VerifZMember, 0, len(all))
+		for _, m := range all {
+			z = append(z, VerifZMember{Member: string(m.Value), Score: float64(m.Score)})
+		}
+		sort.Slice(z, func(i, j int) bool { return z[i].Member < z[j].Member })
+		return VerifValue{Type: "zset", ZSet: z}
+	}
+	return VerifValue{Type: fmt.Sprintf("other:%T", v)}
+}
+
+// VerifDump returns a canonical dump of the whole store and its bookkeeping.
+// It does not go through getValues, so it triggers neither lazy expiry nor
+// access bookkeeping.
+func (server *SugarDB) VerifDump() VerifDumpResult {
+	res := VerifDumpResult{
+		DBs:      make(map[int]map[string]VerifValue),
+		Volatile: make(map[int][]string),
+		LRU:      make(map[int][]string),
+		LFU:      make(map[int][]string),
+		LFUCount: make(map[int]map[string]int),
+		LRUTime:  make(map[int]map[string]int64),
+	}
+	server.storeLock.RLock()
+	for db, data := range server.store {
+		out := make(map[string]VerifValue, len(data))
+		for k, kd := range data {
+			v := verifValue(kd.Value)
+			if kd.ExpireAt != (time.Time{}) {
+				v.ExpireAt = kd.ExpireAt.UnixNano()
+			}
+			out[k] = v
+		}
+		res.DBs[db] = out
+	}
+	res.MemUsed = server.memUsed
+	server.storeLock.RUnlock()
+
+	server.keysWithExpiry.rwMutex.RLock()
+	for db, keys := range server.keysWithExpiry.keys {
+		res.Volatile[db] = append([]string{}, keys...)
+	}
+	server.keysWithExpiry.rwMutex.RUnlock()
+
+	if server.lruCache.cache != nil {
+		server.lruCache.mutex.Lock()
+		for db, c := range server.lruCache.cache {
+			entries, _ := c.VerifEntries()
+			res.LRUTime[db] = make(map[string]int64)
+			for _, e := range entries {
+				if e.Nil {
+					res.LRU[db] = append(res.LRU[db], "<nil>")
+					continue
+				}
+				res.LRU[db] = append(res.LRU[db], e.Key)
+				res.LRUTime[db][e.Key] = e.UnixTime
+			}
+		}
+		server.lruCache.mutex.Unlock()
+	}
+	if server.lfuCache.cache != nil {
+		server.lfuCache.mutex.Lock()
+		for db, c := range server.lfuCache.cache {
+			entries, _ := c.VerifEntries()
+			res.LFUCount[db] = make(map[string]int)
+			for _, e := range entries {
+				if e.Nil {
+					res.LFU[db] = append(res.LFU[db], "<nil>")
+					continue
+				}
+				res.LFU[db] = append(res.LFU[db], e.Key)
+				res.LFUCount[db][e.Key] = e.Count
+			}
+		}
+		server.lfuCache.mutex.Unlock()
+	}
+	return res
+}
+
+// VerifAccountedSize returns the sum, over the keys currently stored, of the
+// size the server's own accounting function assigns to a key.
+func (server *SugarDB) VerifAccountedSize() (int64, error) {
+	server.storeLock.RLock()
+	defer server.storeLock.RUnlock()
+	var total int64
+	for _, data := range server.store {
+		for k, kd := range data {
+			kd := kd
+			mem, err := kd.GetMem()
+			if err != nil {
+				return 0, err
+			}
+			total += mem
+			total += int64(unsafe.Sizeof(k))
+			total += int64(len(k))
+		}
+	}
+	return total, nil
+}
+
+// VerifTickExpiry runs one synchronous round of the background expiry sampler
+// for the given database.
+func (server *SugarDB) VerifTickExpiry(database int) error {
+	ctx := context.WithValue(context.Background(), "Database", database)
+	return server.evictKeysWithExpiredTTL(ctx)
+}
+
+// VerifSnapshotSync takes a standalone snapshot synchronously and returns its error.
+func (server *SugarDB) VerifSnapshotSync() error {
+	if server.isInCluster() {
+		return server.raft.TakeSnapshot()
+	}
+	return server.snapshotEngine.TakeSnapshot()
+}
+
+// VerifEmbeddedDatabase returns the logical database selected for the embedded API.
+func (server *SugarDB) VerifEmbeddedDatabase() int {
+	server.connInfo.mut.RLock()
+	defer server.connInfo.mut.RUnlock()
+	return server.connInfo.embedded.Database
+}
+
+// VerifCommandInfo describes one registered command or subcommand.
+type VerifCommandInfo struct {
+	Command    string
+	SubCommand string
+	Categories []string
+	Sync       bool
+	Write      bool
+}
+
+// VerifCommandTable lists every registered command and subcommand.
+func (server *SugarDB) VerifCommandTable() []VerifCommandInfo {
+	server.commandsRWMut.RLock()
+	defer server.commandsRWMut.RUnlock()
+	var res []VerifCommandInfo
+	for _, c := range server.commands {
+		if len(c.SubCommands) == 0 {
+			res = append(res, VerifCommandInfo{
+				Command: c.Command, Categories: append([]string{}, c.Categories...), Sync: c.Sync,
+				Write: internal.IsWriteCommand(c, internal.SubCommand{}),
+			})
+			continue
+		}
+		for _, sc := range c.SubCommands {
+			res = append(res, VerifCommandInfo{
+				Command: c.Command, SubCommand: sc.Command,
+				Categories: append(append([]string{}, c.Categories...), sc.Categories...), Sync: sc.Sync,
+				Write: internal.IsWriteCommand(c, sc),
+			})
+		}
+	}
+	return res
+}
+
+// VerifKeyExtraction runs the command's own key extraction function on argv.
+func (server *SugarDB) VerifKeyExtraction(argv []string) (read, write, channels []string, err error) {
+	command, err := server.getCommand(argv[0])
+	if err != nil {
+		return nil, nil, nil, err
+	}
+	sc, err := internal.GetSubCommand(command, argv)
+	if err != nil {
+		return nil, nil, nil, err
+	}
+	f := command.KeyExtractionFunc
+	if sub, ok := sc.(internal.SubCommand); ok {
+		f = sub.KeyExtractionFunc
+	}
+	r, err := f(argv)
+	if err != nil {
+		return nil, nil, nil, err
+	}
+	return r.ReadKeys, r.WriteKeys, r.Channels, nil
+}
